@@ -2,6 +2,7 @@ package c07
 
 import (
 	"math/big"
+	"time"
 
 	simwallet "perun.network/go-perun/backend/sim/wallet"
 	"perun.network/go-perun/channel"
@@ -23,6 +24,17 @@ type tcase struct {
 	reach bool
 	busy  bool
 	site  string
+	wd    time.Duration // watchdog of this case (0: the default of its message type)
+}
+
+// unawaitedCase: the honest funding update of a sub-channel whose interceptor nobody awaits (the
+// known finding): always generated once per C12 run, with a short watchdog.
+func (f *fctx) unawaitedCase(cur *channel.State) tcase {
+	id := f.g.ID()
+	bals := f.part(cur.Balances)
+	m := f.signedUpd(fundState(cur, id, bals, nil), f.peer())
+	return tcase{class: "f-unawaited", accept: true, fund: []icept{{ID: id, Bals: bals, Awaited: false}}, msg: &m,
+		site: "client.updateInterceptor.HandleUpdate", wd: 1500 * time.Millisecond}
 }
 
 func cloneBals(b channel.Balances) channel.Balances { return b.Clone() }
